@@ -225,8 +225,10 @@ def one(ctx, case, tmp, reqs, meta):
             ctx.fail_input(dict(case, refuse=kw), 'a pool accepted a batch_size/seed different from the one it was created with')
         except ValueError:
             pass
-    if hasattr(pool, 'close'):
+    if isinstance(pool, elfi.ArrayPool):
         pool.close()
+    else:
+        pool.delete()                     # a plain OutputPool would be pickled into ./pools by close()
 
 
 def process(ctx, n):
